@@ -41,7 +41,13 @@ Definition logs_agree (lm : bool) (a b : list event) : bool :=
 Definition reply_eqb (a b : reply) : bool :=
   match a, b with
   | ROk, ROk | RFail, RFail | RNone, RNone => true
-  | RData x, RData y => list_eqb (fun p q => (fst p =? fst q) && Bool.eqb (snd p) (snd q)) x y
+  | RData x, RData y =>
+      (* go-smtp keys the statuses by the spelling the client used; the cases name recipients by
+         their normal form, so among repeated occurrences of one recipient only the number of
+         successes is compared (they differ only when a repeated LHLO left stale entries) *)
+      list_eqb N.eqb (map fst x) (map fst y)
+      && forallb (fun p => Nat.eqb (length (filter (fun q : N * bool => (fst q =? fst p) && snd q) x))
+                                    (length (filter (fun q : N * bool => (fst q =? fst p) && snd q) y))) x
   | _, _ => false
   end.
 
@@ -89,8 +95,7 @@ Section Mon.
           if Bool.eqb (snd pr) tgt_ok then []
           else if m_ehlo d then [107]
           else if negb (snd pr) && tgt_ok && existsb (fun e => match snd e with ECommit false => true | _ => false end) seg then [109]
-          else if snd pr && forallb (fun t => match inst_of t with Some i => added i rr && body_ok i && p_partial (plan_of cf t) | None => false end) (route_of cf rr)
-               then [108] else [5]) per
+          else [5]) per
     | RNone => []
     end.
 
